@@ -141,6 +141,10 @@ type DataPlan struct {
 type SASLScript struct {
 	Challenges [][]byte `json:"challenges,omitempty"`
 	Final      Decision `json:"final"`
+	// FinalData: what the mechanism returns as its last "challenge" together
+	// with done = true (RFC 4422 3.6, additional data with success: a server
+	// signature). SMTP's 235 has no place for it; the exchange is over.
+	FinalData []byte `json:"final_data,omitempty"`
 	// SkipChallengesWithIR: when the client supplied an initial response the
 	// mechanism goes straight to its final verdict (like PLAIN does).
 	SkipChallengesWithIR bool `json:"skip_challenges_with_ir,omitempty"`
@@ -778,7 +782,7 @@ func (m *saslServer) Next(response []byte) (challenge []byte, done bool, err err
 	if err != nil {
 		return nil, false, err
 	}
-	return nil, true, nil
+	return m.script.FinalData, true, nil
 }
 
 var (
